@@ -44,7 +44,7 @@ ASSUMPTIONS = [
     "transfer from the extracted data to the user's constraints is C05",
     "constraint functions are abstract: the model receives their values at the result points",
 ]
-MAIN = "Driver/Main_Solve.lean"
+MAIN = "Driver/Main.lean"
 RTOL = 1e-6
 
 
